@@ -41,6 +41,11 @@ type c16Case struct {
 	// K == 2
 	Src *c16Scale `json:"src,omitempty"`
 	Dst *c16Scale `json:"dst,omitempty"`
+	// Same: QQ.Src and QQ.Dest are THE VERY SAME scale object (one pointer); Dst is ignored and
+	// described as Src on the line.  The property still reads Dest.Unmap(Src.Map(x)): not the
+	// identity under Clamp outside the domain, for a Log scale at zero / wrong-sign x (NaN), for a
+	// degenerate domain.
+	Same bool `json:"same,omitempty"`
 }
 
 func finite(x float64) bool { return !math.IsNaN(x) && !math.IsInf(x, 0) }
@@ -210,6 +215,10 @@ func c16Run(raw []byte) (*Line, error) {
 		}
 		return l, nil
 	case 2:
+		if c.Same && c.Src != nil {
+			d := *c.Src
+			c.Dst = &d
+		}
 		if c.Src == nil || c.Dst == nil {
 			return nil, fmt.Errorf("no scales")
 		}
@@ -227,6 +236,9 @@ func c16Run(raw []byte) (*Line, error) {
 		dst, err := c16Make(c.Dst)
 		if err != nil {
 			return nil, err
+		}
+		if c.Same {
+			dst = src
 		}
 		q := scale.QQ{Src: src, Dest: dst}
 		l.c16Scale(c.Src, true)
@@ -664,6 +676,29 @@ func c16Gen(tier string, rng *rand.Rand, emit0 func(interface{})) {
 				src, dst := c16QQScale(rng, sk), c16QQScale(rng, dk)
 				emit(c16Case{K: 2, Src: src, Dst: dst, Xs: c16QQProbes(rng, src, 6), Ys: c16QQProbes(rng, dst, 6)})
 			}
+		}
+	}
+	// (d) QQ whose Src and Dest are the very same scale object (one pointer): Linear and Log,
+	// Clamp on / off, as generated / degenerate / reversed domain (Log: negative domains come from
+	// the generators), probes at the ends, inside, up to one width outside, zero and the wrong sign.
+	// Expected by the model: Dest.Unmap(Src.Map(x)) - NOT the identity outside a clamped domain,
+	// NaN for a Log scale at zero / wrong-sign x, Min for a degenerate domain.
+	ns := 120
+	if thorough {
+		ns = 2500
+	}
+	for kind := 0; kind < 2; kind++ {
+		for i := 0; i < ns; i++ {
+			s := c16QQScale(rng, kind)
+			s.Clamp = i%2 == 0
+			switch i % 6 {
+			case 3:
+				s.Max = s.Min // degenerate
+			case 4, 5:
+				s.Min, s.Max = s.Max, s.Min // reversed (or back to ascending)
+			}
+			d := *s
+			emit(c16Case{K: 2, Same: true, Src: s, Dst: &d, Xs: c16QQProbes(rng, s, 6), Ys: c16QQProbes(rng, s, 6)})
 		}
 	}
 }
